@@ -36,6 +36,12 @@ def storeCall : List String → Option Call
   | ["or", i, j] => do pure (.op2 (libOp2 1) (← i.toNat?) (← j.toNat?))
   | ["xor", i, j] => do pure (.op2 (libOp2 2) (← i.toNat?) (← j.toNat?))
   | ["minus", i, j] => do pure (.op2 (libOp2 3) (← i.toNat?) (← j.toNat?))
+  -- export + re-import (`to_fits_buff` / `to_ascii_str` / `to_json_str`, then the matching loader): a new entry
+  -- holding the same value (C07 round trips); `reimpk k`: FITS export loaded with the loader of kind `k`
+  | ["reimp", i] => do pure (.op1 (fun v => if v.kind ≥ 3 then .error .other else .ok v) (← i.toNat?))
+  | ["reimpk", k, i] => do
+    let k ← k.toNat?
+    pure (.op1 (fun v => if v.kind = k then .ok v else .error .other) (← i.toNat?))
   | ["mand", is] => do pure (.opn (libOpN 0) (← parseIdxList is))
   | ["mor", is] => do pure (.opn (libOpN 1) (← parseIdxList is))
   | ["mxor", is] => do pure (.opn (libOpN 2) (← parseIdxList is))
